@@ -101,15 +101,20 @@ def decodeMembers (j : Json) (k : String) : Except String (List MemberS) := do
     | .arr #[.str ty, .str name] => pure { ty := ty, name := name }
     | _ => throw s!"{k}: [type, name] expected")
 
+def decodeMethodS (m : Json) : Except String MethodS := do
+  pure { pre := ← getStrs m "pre", ret := ← getStr m "ret", name := ← getStr m "name", params := ← decodeMembers m "params", post := ← getStrs m "post" : MethodS }
+
 def decodeDeclS (j : Json) : Except String DeclS := do
   let ms ← getArr j "methods"
-  let methods ← ms.mapM (fun m => do
-    pure { pre := ← getStrs m "pre", ret := ← getStr m "ret", name := ← getStr m "name", params := ← decodeMembers m "params", post := ← getStrs m "post" : MethodS })
+  let methods ← ms.mapM decodeMethodS
   let cs ← getArr j "codes"
   let codes ← cs.mapM (fun k => do
-    pure { name := ← getStr k "name", fields := ← decodeMembers k "fields", ctor := ← decodeMembers k "ctor" : CodeS })
+    let kms ← getArr k "methods"
+    pure { name := ← getStr k "name", fields := ← decodeMembers k "fields", ctor := ← decodeMembers k "ctor",
+           fmods := ← getStrs k "fmods", methods := ← kms.mapM decodeMethodS : CodeS })
   pure { kind := ← getStr j "kind", name := ← getStr j "name", scope := ← getStr j "scope", mods := ← getStrs j "mods",
-         fields := ← decodeMembers j "fields", ctor := ← decodeMembers j "ctor", methods := methods, items := ← getStrs j "items", codes := codes }
+         fields := ← decodeMembers j "fields", ctor := ← decodeMembers j "ctor", methods := methods, items := ← getStrs j "items", codes := codes,
+         fmods := ← getStrs j "fmods" }
 
 /-- `spec.C02` on extracted skeletons: `cases = [{"decl": <index into decls>, "target": "cpp", "skel": {...}}]` -/
 def specOp (req : Json) : Except String Json := do
